@@ -292,6 +292,7 @@ def run(ck):
     if len(byi) != len(scen):
         raise vf.Infra("driver answered %d of %d scenarios\n%s" % (len(byi), len(scen), getattr(ck, "last_stderr", "")[-1500:]))
     tot_j = tot_r = tot_m = 0
+    unreproduced = None
     for i, (sc, origin, model, must) in enumerate(scen):
         before = len(ck.viol)
         judged, raced, nmodel, res = judge(ck, sc, byi[i], origin, model)
@@ -303,8 +304,12 @@ def run(ck):
             ck.sample({"scenario": sc["name"], "binding": sc["kind"], "init": sc["init"], "steps": [fmt_step(s) for s in sc["steps"]],
                        "connections": [{k: c.get(k) for k in ("op", "h", "judged", "want", "got")} for c in res]})
         if must and i == 0 and len(ck.viol) == before:
-            raise vf.Infra("TLC's counterexample of the model as coded is not reproduced by the real client (model or binding out of date): %s -> %s"
-                           % ([fmt_step(s) for s in sc["steps"]], [(c["op"], c["got"]) for c in byi[i]["conns"]]))
+            unreproduced = ("TLC's counterexample of the model as coded is not reproduced by the real client (model or binding out of date): %s -> %s"
+                            % ([fmt_step(s) for s in sc["steps"]], [(c["op"], c["got"]) for c in byi[i]["conns"]]))
+    if unreproduced and not ck.viol:      # the tree follows neither variant of the model and no behaviour showed a violation: inconclusive
+        raise vf.Infra(unreproduced)
+    if unreproduced:
+        ck.notes.append(unreproduced)
     ck.extra["judged_connections"] = tot_j
     ck.extra["overlapping_connections"] = tot_r
     if tot_m:
